@@ -1,6 +1,7 @@
 // Flow-graph part of the harness, templated on the grid type.
 #pragma once
 #include "fsh.hpp"
+#include "xtensor/xstrided_view.hpp"
 
 namespace fastscapelib
 {
@@ -692,11 +693,14 @@ namespace fsh
             // optional setter calls applied to a FRESH eroder before it erodes: set:n:<v> (slope
             // exponent), set:m:<v> (area exponent)
             std::vector<std::pair<char, double>> setters;
+            bool as_views = false;   // pass elevation and drainage area as NON-CONTIGUOUS views
             while (l.more())
             {
                 std::string t = l.next();
                 if (t.rfind("set:", 0) == 0 && t.size() > 6)
                     setters.push_back({ t[4], unhex(t.substr(6)) });
+                else if (t == "view")
+                    as_views = true;
             }
             os << "I spl " << kk;
             if (kk == "s")
@@ -768,9 +772,25 @@ namespace fsh
                 }
                 arr a = make_arr(area);
                 arr e = make_arr(elevv);
+                // the same fields as every second column of arrays twice as wide: strided views of them
+                // are legal arguments (anything convertible to the array type) and must give the same result
+                auto gshape = grid.shape();
+                auto sh2 = std::vector<std::size_t>(gshape.begin(), gshape.end());
+                sh2.back() *= 2;
+                arr big_e = arr::from_shape(sh2), big_a = arr::from_shape(sh2);
+                big_e.fill(-12345.0);
+                big_a.fill(-1.0);
+                xt::xstrided_slice_vector sv;
+                for (std::size_t d = 0; d + 1 < sh2.size(); ++d)
+                    sv.push_back(xt::all());
+                sv.push_back(xt::range(0, static_cast<std::ptrdiff_t>(sh2.back()), 2));
+                auto ve = xt::strided_view(big_e, sv);
+                auto va = xt::strided_view(big_a, sv);
+                ve = e;
+                va = a;
                 for (int r = 0; r < reps; ++r)
                 {
-                    const arr& ero = er->erode(e, a, dt);
+                    const arr& ero = as_views ? er->erode(ve, va, dt) : er->erode(e, a, dt);
                     os << "O erosion";
                     for (auto x : ero)
                         os << ' ' << hexd(x);
